@@ -49,22 +49,22 @@ mut("c04_close_no_push", "src/storage/core.rs", """            if let Some(ablob
 mut("c05_no_audit_load_data", "src/blob/entry.rs", "        self.header.data_checksum_audit(&data)?;\n        Ok(data)", "        Ok(data)", ["C05"])
 mut("c05_no_validate_load", "src/blob/entry.rs", "        Record::new(self.header, meta, data_buf)\n            .validate()\n            .with_context(|| format!(\"validation failed for Record loaded from BLOB: {}\", self.blob_file_name.as_path().display()))\n", "        Ok(Record::new(self.header, meta, data_buf))\n", ["C05"], "checksum verification removed from the read path")
 mut("c05_include_data_off", "src/record/record.rs", "let include_data = head_size + data.len() <= MAX_SINGLE_PASS_DATA_SIZE;", "let include_data = head_size + data.len() <= MAX_SINGLE_PASS_DATA_SIZE + 1;", ["C05"], "EQUIVALENT on behaviour (one more byte in the single buffer)")
-mut("c05_double_offset", "src/io/unix/sync.rs", "                offset = offset + b1.len() as u64;", "                offset = offset + b1.len() as u64 - ((b1.len() == 4000) as u64);", ["C05"], "second buffer lands one byte early for one head size")
+mut("c05_double_offset", "src/io/unix/sync.rs", "                offset = offset + b1.len() as u64;", "                offset = offset + b1.len() as u64 - ((b1.len() == 4000) as u64);", ["C05"], "needle: fires for one head size (exactly 4000 bytes of header+meta) only; sanity that a miss is possible - not hit by the sampled meta sizes")
 mut("c05_regen_no_data_check", "src/blob/core.rs", "            if let Some(data) = data {\n                header.data_checksum_audit(&data)", "            if let Some(data) = data.filter(|_| false) {\n                header.data_checksum_audit(&data)", ["C05"], "validate_data_during_index_regen ignored")
 # ---- C03
 mut("c03_stale_gt", "src/blob/index/bptree/core.rs", "        if self.header.blob_size() != blob_size {", "        if self.header.blob_size() > blob_size {", ["C03"], "stale index (smaller recorded blob size) accepted")
-mut("c03_skip_written", "src/blob/index/bptree/core.rs", "        if !self.header.is_written() {\n            let param = ValidationErrorKind::IndexNotWritten;\n            return Err(", "        if false {\n            let param = ValidationErrorKind::IndexNotWritten;\n            return Err(", ["C03"])
+mut("c03_skip_written", "src/blob/index/bptree/core.rs", "        if !self.header.is_written() {\n            let param = ValidationErrorKind::IndexNotWritten;\n            return Err(", "        if false {\n            let param = ValidationErrorKind::IndexNotWritten;\n            return Err(", ["C03"], "EQUIVALENT given the size + hash validation (fix ca281bb): a half-written index is shorter than its header says and is rejected anyway; a complete one with the bit clear holds correct content")
 mut("c03_maxid_ignores_failed", "src/storage/core.rs", "                        max_blob_id = max_blob_id.max(Some(file_name.id()));", "                        let _ = file_name;", ["C07", "C06", "C11"], "max id ignores files that failed to open")
 mut("c03_f5_revert", "src/blob/index/bptree/core.rs", "        if self.file.size() != expected_size {", "        if false && self.file.size() != expected_size {", ["C03"], "reverts fix F5")
 mut("c03_f6_revert", "src/storage/core.rs", "let max_blob_id = max_blob_id.max(Self::max_old_corrupted_blob_id(&self.inner.config).await);", "", ["C03", "C07"], "reverts fix F6")
 # ---- C06
 mut("c06_eof_not_bincode", "src/error.rs", "        if self.kind() == IOErrorKind::UnexpectedEof {\n            Error::bincode(", "        if false && self.kind() == IOErrorKind::UnexpectedEof {\n            Error::bincode(", ["C06"], "EOF no longer classified as corruption: init fails on a torn blob")
-mut("c06_validation_not_saved", "src/storage/core.rs", "                    !matches!(kind, ValidationErrorKind::BlobVersion)", "                    !matches!(kind, ValidationErrorKind::BlobVersion | ValidationErrorKind::RecordHeaderChecksum)", ["C06", "C07"], "record header checksum errors abort init instead of quarantining")
+mut("c06_validation_not_saved", "src/storage/core.rs", "                    !matches!(kind, ValidationErrorKind::BlobVersion)", "                    !matches!(kind, ValidationErrorKind::BlobVersion | ValidationErrorKind::RecordHeaderChecksum)", ["C06", "C07"], "OUTSIDE the stated properties: a record header checksum error aborts init instead of quarantining; needs a flipped or garbage header byte in a blob, which no property quantifies over (C06: truncation lengths; C05: data bytes; C03: index files). The zero-filled-tail observations of C06 show it, unjudged")
 mut("c06_no_fresh_active", "src/storage/core.rs", "            if blobs.is_empty() {\n                let next = self.inner.next_blob_name()?;", "            if false {\n                let next = self.inner.next_blob_name()?;", ["C06"], "no fresh active blob when everything was quarantined")
-mut("c06_index_written_first", "src/blob/index/bptree/core.rs", "        file.write_append_all(buf.freeze()).await?;\n        header.set_written(true);", "        header.set_written(true);\n        let mut buf = buf; { let mut h = BytesMut::with_capacity(128); serialize_into((&mut h).writer(), &header)?; buf[..h.len()].copy_from_slice(&h); }\n        file.write_append_all(buf.freeze()).await?;", ["C06", "C03"], "index body written with the written bit already set (no two-phase)")
+mut("c06_index_written_first", "src/blob/index/bptree/core.rs", "        file.write_append_all(buf.freeze()).await?;\n        header.set_written(true);", "        header.set_written(true);\n        let mut buf = buf; { let mut h = BytesMut::with_capacity(128); serialize_into((&mut h).writer(), &header)?; buf[..h.len()].copy_from_slice(&h); }\n        file.write_append_all(buf.freeze()).await?;", ["C06", "C03"], "EQUIVALENT given the size validation (fix ca281bb): a torn index body is shorter than the header says")
 mut("c06_torn_tail_accepted", "src/blob/core.rs", "        if record_end > self.file.size() {", "        if false && record_end > self.file.size() {", ["C06"], "reverts fix: torn data of last record accepted")
 # ---- C07
-mut("c07_create_truncates", "src/io/unix/sync.rs", "File::from_file(path, |f| f.create(true).write(true).read(true)).await", "File::from_file(path, |f| f.create(true).truncate(true).write(true).read(true)).await", ["C07"], "create() truncates an existing file (only harmful when a blob path is re-created)")
+mut("c07_create_truncates", "src/io/unix/sync.rs", "File::from_file(path, |f| f.create(true).write(true).read(true)).await", "File::from_file(path, |f| f.create(true).truncate(true).write(true).read(true)).await", ["C07"], "EQUIVALENT as long as no blob path is ever re-created (which C07 rule 3 and the id rules watch): create() is only used for new blob names and for index files that are rewritten as a whole")
 mut("c07_quarantine_copy_delete", "src/storage/core.rs", """        tokio::fs::rename(&path, &corrupted_path)
             .await""", """        tokio::fs::copy(&path, &corrupted_path).await.map(|_| ()).and(tokio::fs::write(&path, b"").await).and(tokio::fs::remove_file(&path).await)""", ["C07"], "quarantine by copy + truncate + delete")
 mut("c07_regen_rewrites_tail", "src/blob/core.rs", """        debug!("index successfully generated: {}", self.index.name());""", """        if self.index.count() == 3 { let _ = std::fs::OpenOptions::new().write(true).open(self.name.as_path()).and_then(|f| f.set_len(self.file.size() - 1)); }""", ["C07", "C03"], "index regeneration trims the last byte of a 3-record blob")
@@ -73,7 +73,7 @@ mut("c07_query_writes", "src/storage/core.rs", """    pub async fn records_count
         self.observer.try_dump_old_blob_indexes().await;
         self.inner.records_count().await""", ["C07"], "a counter query triggers index dumps (writes)")
 # ---- C08
-mut("c08_write_read_lock", "src/blob/core.rs", "        let blob = blob.upgradable_read().await;", "        let blob = blob.read().await;", ["C08"], "writers no longer serialised per blob (still correct? offsets are reserved atomically)")
+mut("c08_write_read_lock", "src/blob/core.rs", "        let blob = blob.upgradable_read().await;", "        let blob = blob.read().await;", ["C08", "C07"], "writers no longer serialised per blob: offsets are reserved atomically, so nothing overlaps (C08 holds), but records land below the end of stored bytes (C07 write-order rule)")
 mut("c08_fetch_add_outside", "src/io/unix/sync.rs", """            Self::inplace_sync_call(move || {
                 let offset = file_inner.size.fetch_add(len, Ordering::SeqCst);
                 let (res, data) = c.create(offset);""", """            let offset = file_inner.size.load(Ordering::SeqCst);
@@ -221,7 +221,7 @@ mut("c16_migrate_drops_markers", "src/tools/utils.rs", "            Ok(record) =
 mut("c16_collector_counts_keys", "src/tools/collectors.rs", "    fn add_record(&mut self, record: Record) {\n        self.records += 1;", "    fn add_record(&mut self, record: Record) {\n        self.records = self.keys.len() + 1;", ["C16"], "BlobSummaryCollector counts unique keys instead of records")
 # ---- C17
 mut("c17_hasher_keys", "src/filter/bloom.rs", "AHasher::new_with_keys((i + 1) as u128, (i + 2) as u128)", "AHasher::new_with_keys((i + 2) as u128, (i + 3) as u128)", ["C17"], "self-consistent change of the bloom hash seeds")
-mut("c17_block_size", "src/blob/index/bptree/core.rs", "pub(super) const BLOCK_SIZE: usize = 4096;", "pub(super) const BLOCK_SIZE: usize = 2048;", ["C17"], "self-consistent change of the B+tree block size")
+mut("c17_block_size", "src/blob/index/bptree/core.rs", "pub(super) const BLOCK_SIZE: usize = 4096;", "pub(super) const BLOCK_SIZE: usize = 2048;", ["C17"], "EQUIVALENT for reading: the reader takes all offsets from the file header, the block size only sizes its buffers; files written by the pinned release are answered identically")
 mut("c17_record_field_order", "src/record/record.rs", "    flags: u8,\n    blob_offset: u64,\n    timestamp: u64,", "    blob_offset: u64,\n    flags: u8,\n    timestamp: u64,", ["C17"], "self-consistent change of the record header layout")
 mut("c17_range_field_order", "src/filter/range.rs", """    #[serde(serialize_with = "serialize_key", deserialize_with = "deserialize_key")]
     min: K,
